@@ -101,7 +101,7 @@ PROPERTIES = {
     "C11": {
         "claims_termination": True,  # a case that exceeds the per-case time limit is a violation ("always returns", "bounded retries")
         "rule": "rapidcheck: closed mesh with generated momenta and face labels; edge-length band placed relative to the mesh's edge "
-                "length distribution in five classes (all edges inside, only too long, too short, both, heavy); 1-4 passes with swap on/off "
+                "length distribution in five classes (all edges inside, only too long, too short, both, heavy) plus (1/10) exact ties: boxes with integer-times-power-of-two coordinates and l_max or l_min put exactly on one of their edge lengths ('longer than' and 'shorter than' are strict); 1-4 passes with swap on/off "
                 "and displacements (noise, stretch, strong compression producing slivers) between passes. The refiner's operation trace "
                 "(guarded hook H4) is replayed on a shadow mesh and the cell must equal the shadow. Non-trivial = a pass that performed "
                 ">= 1 split and >= 1 collapse, or a pass on an independently verified conforming mesh; distinct = hash of the case.",
@@ -321,10 +321,10 @@ PROPERTIES = {
     "C17": {
         "level": "fault_enumeration",
         "rule": "(b) exhaustive single-fault enumeration on valid templates (quick: 2 mesh + 1 parameter template; thorough: 3 + 3, including a "
-                "polygonal cube that goes through the reconstruction): every token deleted / duplicated / replaced by each of 15 hostile "
-                "values, every line replaced by 7 inconsistent count lines, every section removed / swapped, truncation at (every) byte "
-                "offset; every XML element removed / duplicated / emptied / self-closed / replaced by 22 hostile texts, every tag deleted, "
-                "every section removed or emptied; every numerical parameter additionally replaced by the 22 hostile texts with the initial triangulation switched on (polygonal cube), so that hostile edge lengths and cut-offs reach the sampling grids and the ball pivoting; each mutant goes through the real start-up in the sanitized child; an input that start-up accepts must have been turned into cells that are closed surfaces with consistent bookkeeping (independent topology oracle, combinatorial clauses). (a) libFuzzer (clang, "
+                "polygonal cube that goes through the reconstruction): every token deleted / duplicated / replaced by each of 17 hostile "
+                "values (incl. indices whose triple wraps 2^32), every line replaced by 7 inconsistent count lines, every section removed / swapped, truncation at (every) byte "
+                "offset; every XML element removed / duplicated / emptied / self-closed / replaced by 24 hostile texts, every tag deleted, "
+                "every section removed or emptied; every numerical parameter additionally replaced by the 24 hostile texts with the initial triangulation switched on (polygonal cube), so that hostile edge lengths and cut-offs reach the sampling grids and the ball pivoting; each mutant goes through the real start-up in the sanitized child; an input that start-up accepts must have been turned into cells that are closed surfaces with consistent bookkeeping (independent topology oracle, combinatorial clauses). (a) libFuzzer (clang, "
                 "ASan+UBSan) on three targets with semantic oracles, half of the workers from the committed seeds and half from an empty "
                 "corpus. Non-trivial = a mutant that gets past the first syntactic check (completes, or fails with anything but the "
                 "header / file-not-found message), or a coverage-increasing fuzz input; distinct = mutation description / corpus file.",
